@@ -305,10 +305,10 @@ func frame(payload []byte) []byte {
 	return append(f, byte(c>>16), byte(c>>8), byte(c))
 }
 
-func traffic(r *rand.Rand, kind string) []byte {
+func traffic(r *rand.Rand, kind string, count int) []byte {
 	var bs []byte
 	types := []int{1005, 1006, 1074, 1077, 1084, 1087, 1094, 1097, 1124, 1127, 1230, 4000}
-	for k := 0; k < 3+r.Intn(8); k++ {
+	for k := 0; k < count; k++ {
 		switch kind {
 		case "valid-frames":
 			p := make([]byte, 1+r.Intn(200))
@@ -344,7 +344,8 @@ func traffic(r *rand.Rand, kind string) []byte {
 
 func runC19(res *result) error {
 	res.Rule = "the real proxy binary built from /repo between a test client and a test upstream server on TCP loopback: client-to-server and server-to-client byte streams (valid frames, CRC-valid frames with " +
-		"malformed content, random bytes, payloads and non-RTCM data containing '<' and '>') in random chunkings; both directions compared byte for byte; /status/report fetched and the number of '<'/'>' in the body " +
+		"malformed content, random bytes, payloads and non-RTCM data containing '<' and '>') in random chunkings and as single bursts of several read buffers; both directions compared byte for byte; in verbose runs the message log " +
+		"(raw bytes of every message the parser produced, i.e. what the report lists) must be a prefix of the relayed client stream and, for streams of valid frames, all of it; /status/report fetched and the number of '<'/'>' in the body " +
 		"compared with the number the page has when the traffic contains no markup at all; non-trivial = at least 100 bytes relayed; distinct = distinct traffic"
 	tmp, err := os.MkdirTemp("", "verif-c19")
 	if err != nil {
@@ -373,7 +374,14 @@ func runC19(res *result) error {
 		cfg := filepath.Join(dir, "proxy.json")
 		os.WriteFile(cfg, []byte(fmt.Sprintf(`{"remote_host": "127.0.0.1:%d", "proxy_host": "127.0.0.1", "proxy_port": %d, "control_host": "127.0.0.1", "control_port": %d, "record_messages": true, "message_log_directory": %q}`,
 			upPort, proxyPort, ctlPort, filepath.Join(dir, "logs"))), 0o644)
-		cmd := exec.Command(bin, "-c", cfg, "-q")
+		// every second run: verbose, so that the message log (raw bytes of every parsed message) is written
+		args := []string{"-c", cfg}
+		logged := r.Intn(2) == 0 || i == 0
+		if !logged {
+			args = append(args, "-q")
+		}
+		burst := r.Intn(3) == 0 // the client writes everything in one call (several read buffers in flight)
+		cmd := exec.Command(bin, args...)
 		cmd.Dir = dir
 		var perr bytes.Buffer
 		cmd.Stdout = io.Discard
@@ -381,8 +389,12 @@ func runC19(res *result) error {
 		if err := cmd.Start(); err != nil {
 			return err
 		}
-		c2s := traffic(r, kind)
-		s2c := traffic(r, kinds[r.Intn(len(kinds))])
+		count := 3 + r.Intn(8)
+		if burst {
+			count = 40 + r.Intn(40)
+		}
+		c2s := traffic(r, kind, count)
+		s2c := traffic(r, kinds[r.Intn(len(kinds))], 3+r.Intn(8))
 		gotUp := make(chan []byte, 1)
 		go func() {
 			conn, err := up.Accept()
@@ -409,7 +421,7 @@ func runC19(res *result) error {
 			}()
 			var buf []byte
 			tmpb := make([]byte, 4096)
-			conn.SetReadDeadline(time.Now().Add(8 * time.Second))
+			conn.SetReadDeadline(time.Now().Add(15 * time.Second))
 			for len(buf) < len(c2s) {
 				k, err := conn.Read(tmpb)
 				buf = append(buf, tmpb[:k]...)
@@ -433,6 +445,10 @@ func runC19(res *result) error {
 		} else {
 			go func() {
 				rest := c2s
+				if burst {
+					conn.Write(rest)
+					return
+				}
 				for len(rest) > 0 {
 					k := 1 + r.Intn(700)
 					if k > len(rest) {
@@ -459,6 +475,29 @@ func runC19(res *result) error {
 				fail = fmt.Sprintf("the upstream server received %d bytes, the client sent %d (first difference at %d)", len(upstream), len(c2s), firstDiff(upstream, c2s))
 			case !bytes.Equal(fromServer, s2c):
 				fail = fmt.Sprintf("the client received %d bytes, the server sent %d", len(fromServer), len(s2c))
+			}
+			if fail == "" && logged {
+				// the message log holds the raw bytes of every message the parser produced (and the report
+				// lists): they must be the relayed stream itself, in order
+				time.Sleep(200 * time.Millisecond)
+				var logBytes []byte
+				files, _ := filepath.Glob(filepath.Join(dir, "logs", "data.*.rtcm"))
+				for _, f := range files {
+					b, _ := os.ReadFile(f)
+					logBytes = append(logBytes, b...)
+				}
+				marker := []byte("[*] Listening for Client call ...\n")
+				if k := bytes.Index(logBytes, marker); k >= 0 {
+					parsed := logBytes[k+len(marker):]
+					switch {
+					case !bytes.HasPrefix(c2s, parsed):
+						fail = fmt.Sprintf("the messages parsed for the report and the message log are not the relayed stream: first difference at byte %d of %d parsed bytes (relayed %d)", firstDiff(parsed, c2s), len(parsed), len(c2s))
+					case kind == "valid-frames" && len(parsed) != len(c2s):
+						fail = fmt.Sprintf("the message log holds %d of the %d relayed bytes of valid frames", len(parsed), len(c2s))
+					}
+				} else {
+					res.Notes = append(res.Notes, "message log marker not found; parsed-stream comparison skipped")
+				}
 			}
 			if fail == "" {
 				time.Sleep(150 * time.Millisecond) // let the parser leg fill the queue
@@ -490,6 +529,12 @@ func runC19(res *result) error {
 		outcome := "ok"
 		if fail != "" {
 			outcome = "fail"
+		}
+		if burst {
+			kind += "/burst"
+		}
+		if logged {
+			kind += "/logged"
 		}
 		res.record(kind, fmt.Sprintf("proxy kind=%s c2s=%s s2c=%d bytes", kind, hex.EncodeToString(c2s[:min(len(c2s), 60)]), len(s2c)), outcome, len(c2s) >= 100, fail)
 		os.RemoveAll(dir)
